@@ -90,6 +90,10 @@ class Gen:
             bodies["d1"]["plen"] = r.choice([1, 2, 100, 999, 1000, 1001, 1500, 2000])
         if r.random() < 0.2:
             bodies["d1"]["ts"] = r.choice([0, 1, 2 ** 31, 2 ** 32 - 1])
+        elif bodies["d2"]["id"] == "i1" and r.random() < 0.6:
+            # two bodies of one message id whose timestamps are around the settlement time apart (late-observation rule)
+            bodies["d1"]["ts"] = 1600000000 + r.randrange(1000)
+            bodies["d2"]["ts"] = bodies["d1"]["ts"] + r.choice([-31, -30, 1, 29, 30, 31, 61])
         steps = [{"ev": "SetUpdate", "a": {"set": A}}]
         # second set: perturbation of A
         B = None
